@@ -534,3 +534,45 @@ def atxt(ff: FuncFlow, e: ast.AST, depth: int = 4) -> str:
     if isinstance(x_old, ast.Name) and id(x_old) in mapping:
       x_new.id = mapping[id(x_old)]
   return txt(e2)
+
+
+def self_txt(ff: 'FuncFlow', e: ast.AST) -> str:
+  """Text of `e` with local aliases of attributes of self resolved: a name whose only definition is `name = self.attr` (or, in the
+  method that stores it, the parameter p of `self.attr = p`) is written as `self.attr`. `round_num = self._round_num; f(round_num)`
+  and `f(self._round_num)` read the same."""
+  import copy
+  fi = ff.fi
+  stored = {}
+  for st in ast.walk(fi.node):
+    if isinstance(st, ast.Assign) and len(st.targets) == 1 and isinstance(st.targets[0], ast.Attribute) and isinstance(
+        st.targets[0].value, ast.Name) and st.targets[0].value.id == 'self' and isinstance(st.value, ast.Name) and st.value.id in fi.params:
+      stored.setdefault(st.value.id, st.targets[0])
+
+  class R(ast.NodeTransformer):
+    def visit_Name(self, node):
+      if not isinstance(node.ctx, ast.Load):
+        return node
+      try:
+        ds = ff.defs_for(node)
+      except Exception:  # pylint: disable=broad-except
+        ds = []
+      if len(ds) == 1:
+        d = next(iter(ds))
+        v = d.value
+        if d.kind == 'assign' and d.index is None and isinstance(v, ast.Attribute) and isinstance(v.value, ast.Name) and v.value.id == 'self':
+          return copy.deepcopy(v)
+        if d.kind == 'param' and node.id in stored:
+          return copy.deepcopy(stored[node.id])
+      return node
+  # the transformer needs the original nodes for reaching definitions: map copies back by position
+  orig = {}
+  for x in ast.walk(e):
+    if isinstance(x, ast.Name):
+      orig[(x.lineno, x.col_offset, x.id)] = x
+
+  class R2(R):
+    def visit_Name(self, node):
+      o = orig.get((getattr(node, 'lineno', None), getattr(node, 'col_offset', None), node.id))
+      return R.visit_Name(self, o) if o is not None else node
+  return txt(R2().visit(copy.deepcopy(e)))
+
